@@ -6,11 +6,11 @@ sys.path.insert(0, os.environ.get("PEPPER_REPO", "/repo"))
 from peppercompiler import compiler as pc
 from peppercompiler import DNA_classes
 
-def comp(entry, out, save, synth, includes, fixed=None):
+def comp(entry, out, save, synth, includes, fixed=None, args=()):
     so, se = io.StringIO(), io.StringIO()
     try:
         with contextlib.redirect_stdout(so), contextlib.redirect_stderr(se):
-            pc.compiler(entry, [], out, save, fixed, synth, includes or None)
+            pc.compiler(entry, list(args), out, save, fixed, synth, includes or None)
         return True
     except BaseException as e:
         return False
@@ -21,7 +21,7 @@ for h in job["history"]:
     if h.get("cwd"):
         os.chdir(h["cwd"])     # an earlier compile of ANOTHER project from its own directory (same relative file names)
     # "share": the caller's script hands ONE include-list object to every compile (its entries follow those of the earlier project)
-    comp(h["entry"], h["out"], h["save"], True, job["includes"] if h.get("share") else h["includes"])
+    comp(h["entry"], h["out"], h["save"], True, job["includes"] if h.get("share") else h["includes"], None, h.get("args", ()))
     os.chdir(home)
 before = DNA_classes.AnonymousSequence.num
 ok = comp(job["entry"], job["out"], job["save"], job["fmt"] == "pil", job["includes"], job.get("fixed"))
